@@ -622,6 +622,13 @@ var classes = []struct {
 	{"tex-rewrite", 130}, {"tex-rewrite-any", 50}, {"tex-newsized", 40},
 }
 
+func parRounds(thorough bool) int {
+	if thorough {
+		return 100000
+	}
+	return 25000
+}
+
 func caseRnd(seed int64, class string, idx int) *rand.Rand {
 	h := fnv.New64a()
 	fmt.Fprintf(h, "%d/%s/%d", seed, class, idx)
@@ -639,6 +646,14 @@ func main() {
 			idx, _ := strconv.Atoi(f[2])
 			if f[1] == "corpus" {
 				corpus()[idx].emit(e, e.Replay)
+				return
+			}
+			if f[1] == "par" { // a parallel run cannot be repeated step for step: run the class again and show its rounds
+				e.Seed = seed
+				ph, _, _ := runParallel(e, parRounds(f[3] == "1"))
+				for _, h := range ph {
+					h.emit(e, e.Replay)
+				}
 				return
 			}
 			h := genHistory(f[1], caseRnd(seed, f[1], idx), f[3] == "1")
@@ -663,6 +678,17 @@ func main() {
 			h.emit(e, fmt.Sprintf("%d/corpus/%d/0", e.Seed, i))
 			count(h)
 		}
+		ph, tot, ns := runParallel(e, parRounds(thorough))
+		for _, h := range ph {
+			t := "0"
+			if thorough {
+				t = "1"
+			}
+			h.emit(e, fmt.Sprintf("%d/par/0/%s", e.Seed, t))
+			count(h)
+		}
+		stats["parallel_rounds_run"] = tot
+		stats["parallel_rounds_where_tex_differs_from_bytes.Buffer(go filter, untrusted)"] = ns
 		for _, c := range classes {
 			n := e.Scale(c.quick, c.quick*10)
 			if e.Search { // violation search: the budget goes to the class that diverged
